@@ -132,11 +132,16 @@ class ModuleInfo:
                     else:
                         self.imports.setdefault(al.asname or al.name, (mod, al.name))
         visit_body(self.tree.body, "", None)
-        for st in self.tree.body:
-            if isinstance(st, ast.Assign) and len(st.targets) == 1 and isinstance(st.targets[0], ast.Name):
-                self.assigns[st.targets[0].id] = st.value
-            elif isinstance(st, ast.AnnAssign) and isinstance(st.target, ast.Name) and st.value is not None:
-                self.assigns[st.target.id] = st.value
+        def visit_assigns(body):
+            for st in body:
+                if isinstance(st, ast.Assign) and len(st.targets) == 1 and isinstance(st.targets[0], ast.Name):
+                    self.assigns.setdefault(st.targets[0].id, st.value)
+                elif isinstance(st, ast.AnnAssign) and isinstance(st.target, ast.Name) and st.value is not None:
+                    self.assigns.setdefault(st.target.id, st.value)
+                elif isinstance(st, (ast.If, ast.Try, ast.With)):
+                    for blk in _blocks(st):
+                        visit_assigns(blk)
+        visit_assigns(self.tree.body)
 
 
 def _blocks(st) -> Iterator[list]:
